@@ -47,6 +47,11 @@ def blocks(tier, seed):
     add_cart((3, 4), npre=1)
     add_cart((4, 3), npre=1)
     add_cart((3, 4), dx=[1.6, 0.5], origin=[-3.7, 2.25], npre=1)
+    # other length units: nanometre / micrometre / astronomically large cells (cell volumes far below / above any absolute cut-off)
+    add_cart((3, 3), dx=[1e-9, 2e-9], origin=[0.0, -3e-9], via_field=True)
+    add_cart((2, 2, 2), dx=[2e-6, 2e-6, 1e-6], origin=[0.0, 0.0, 0.0], via_field=True)
+    add_cart((4,), dx=[1e-17], origin=[0.0], via_field=True)
+    add_cart((3, 3), dx=[1e8, 3e8], origin=[-1e9, 0.0])
     if tier == "thorough":
         add_cart((4, 4), npre=4)
     else:  # quick: the doubly periodic mask only (all 65536 images)
@@ -243,6 +248,8 @@ def run_case(case, ctx):
     ctx.check("C02.no-raise", True)
     if case.get("profile") is not None:
         ctx.count("cyl-profile-images")
+    if g["kind"] == "cart" and not (1e-3 <= max(g["dx"]) <= 1e3):
+        ctx.count("other-length-units")
     if case.get("rectpair"):
         ctx.count("two-rectangle-images-8x8")
     comps = geom.components(img, periodic)
@@ -351,7 +358,7 @@ def run_case(case, ctx):
                 if g["periodic"][ax]:
                     lo = g["origin"][ax]
                     hi = lo + g["shape"][ax] * g["dx"][ax]
-                    ctx.check("C02.inbox", lo - 1e-12 <= d.position[ax] <= hi + 1e-12, {"pos": d.position, "axis": ax}, tags)
+                    ctx.check("C02.inbox", lo - 1e-12 * (hi - lo) <= d.position[ax] <= hi + 1e-12 * (hi - lo), {"pos": d.position, "axis": ax}, tags)
     else:
         for d in em:
             if g["periodic_z"]:
@@ -362,7 +369,7 @@ def run_case(case, ctx):
         for i in range(len(ds)):
             for j in range(i + 1, len(ds)):
                 gap = pdist(g, ds[i].position, ds[j].position) - ds[i].radius - ds[j].radius
-                ctx.check("C02.disjoint", gap >= -TOL, {"i": i, "j": j, "gap": gap}, tags)
+                ctx.check("C02.disjoint", gap >= -TOL * max(g["dx"]), {"i": i, "j": j, "gap": gap}, tags)
     # omitted components
     omitted = [i for i in range(len(exp)) if i not in owner]
     if omitted:
@@ -388,7 +395,7 @@ def run_case(case, ctx):
                 else:
                     pj = f["pos"]
                 gap = pdist(g, e["pos"], pj) - ri - geom.sphere_radius(f["vol"], dim)
-                if gap < TOL:
+                if gap < TOL * max(g["dx"]):
                     ok = True
                     break
             if not ok and amb:
@@ -441,4 +448,4 @@ def run_case(case, ctx):
 
 def expected_positive(tier):
     return ["C02.bijection", "C02.disjoint", "C02.omitted", "C02.cyl-empty", "C02.inbox", "C02.entry-point", "winding-components",
-            "components-crossing-a-periodic-boundary", "corner-crossing-components", "omitted-components", "cyl-off-axis-only", "multi-component-images", "cyl-profile-images", "alternating-mask-sequences", "shared-grid-object-sequences", "two-rectangle-images-8x8"]
+            "components-crossing-a-periodic-boundary", "corner-crossing-components", "omitted-components", "cyl-off-axis-only", "multi-component-images", "cyl-profile-images", "alternating-mask-sequences", "shared-grid-object-sequences", "two-rectangle-images-8x8", "other-length-units"]
